@@ -440,7 +440,7 @@ func checkC17(p *Prog, r *Report) {
 		/* Whatever it is called and however its type is spelt: the one
 		map the converter keeps. */
 		if pk := p.Pkg(sffPkg); nil != pk {
-			if tn, ok := pk.Types.Scope().Lookup("Converter").(*types.TypeName); ok {
+			if tn, ok := lookupObj(pk, "Converter").(*types.TypeName); ok {
 				if st, ok := tn.Type().Underlying().(*types.Struct); ok {
 					if ms := fieldsOfType(st, func(t types.Type) bool { _, isMap := t.Underlying().(*types.Map); return isMap }, 0); 1 == len(ms) {
 						filtersF = ms[0]
